@@ -112,6 +112,14 @@ TEMPLATES = [
     "register q[1]\n" + "{<" * 150 + "X q[0]" + ">}" * 150 + "\n",
     "register q[1]\n" + "loop 1 { " * 300 + "prepare_all ; measure_all" + " }" * 300 + "\n",
     "register q[1]\nmacro m a " + "{<" * 200 + "X a" + ">}" * 200 + "\nprepare_all\nm q[0]\nmeasure_all\n",
+    # long chains of macros calling macros
+    "register q[1]\nmacro m0 a { X a }\n" + "".join("macro m%d a { m%d a }\n" % (i + 1, i) for i in range(300)) + "prepare_all\nm300 q[0]\nmeasure_all\n",
+    "register q[1]\nmacro m0 a { X a }\n" + "".join("macro m%d a { m%d a }\n" % (i + 1, i) for i in range(120)) + "prepare_all\nm120 q[0]\nmeasure_all\n",
+    # bounds far beyond any register, on a let-sized source (cannot be checked at declaration)
+    "let n 2\nregister q[n]\nmap a q[0:99999999999999999999999999]\nprepare_all\nX a[0]\nmeasure_all\n",
+    "let n 2\nregister q[n]\nmap a q[99999999999999999999999999:]\nprepare_all\nX a[0]\nmeasure_all\n",
+    "let n 2\nlet big 99999999999999999999999999\nregister q[n]\nmap a q[0:2:big]\nprepare_all\nX a[0]\nmeasure_all\n",
+    "let n 2\nregister q[n]\nprepare_all\nX q[99999999999999999999999999]\nmeasure_all\n",
     # enormous literals
     "let a " + "9" * 5000 + "\n",
     "register q[1]\nprepare_all\nRx q[0] 0." + "1" * 5000 + "\nmeasure_all\n",
@@ -446,6 +454,7 @@ def relative_import_probe(ctx):
         if a != b:
             rec.violation(sig("C16", "sticky-state:relative-import-depends-on-earlier-imports"), {"fresh": a, "preloaded": b},
                           {"kind": "import", "text": text})
+        minimal_import_probe(rec, d, text)
         # history: absolute import of the same name before and after a relative import of it
         abs_text = "from vfscratchmod usepulses *\nregister q[1]\nprepare_all\nFoo q[0]\nmeasure_all\n"
         p = subprocess.run([sys.executable, "-c", child], input=json.dumps({"steps": [(abs_text, "parse", {}), (text, "parse", {}),
@@ -467,6 +476,46 @@ def relative_import_probe(ctx):
         import shutil
 
         shutil.rmtree(d, ignore_errors=True)
+
+
+MINIMAL_IMPORT_CHILD = r'''
+import sys, json
+spec = json.load(sys.stdin)
+from jaqalpaq.parser import parse_jaqal_string
+from jaqalpaq.error import JaqalError
+pre = "importlib.util" in sys.modules
+try:
+    parse_jaqal_string(spec["text"], autoload_pulses=True, import_path=spec["path"])
+    out = ["ok", ""]
+except JaqalError as ex:
+    out = ["JaqalError", str(ex)[:200]]
+except ImportError as ex:
+    out = ["ImportError", str(ex)[:200]]
+except Exception as ex:
+    out = ["other:" + type(ex).__name__, str(ex)[:200]]
+json.dump({"outcome": out, "importlib_util_preloaded": pre}, sys.stdout)
+'''
+
+
+def minimal_import_probe(rec, d, text):
+    """The same relative pulse import in a process that has imported nothing but the parser."""
+    env = dict(os.environ)
+    env["PYTHONPATH"] = os.path.join(harness.REPO, "src")
+    p = subprocess.run([sys.executable, "-c", MINIMAL_IMPORT_CHILD], input=json.dumps({"text": text, "path": d}),
+                       capture_output=True, text=True, timeout=120, env=env)
+    if p.returncode != 0:
+        rec.inconc("minimal import child failed: " + p.stderr[-400:])
+        return
+    r = json.loads(p.stdout)
+    rec.count("relative-import-probes")
+    rec.note("relative_import_minimal_process", r)
+    o = r["outcome"]
+    if o[0].startswith("other:"):
+        rec.violation(sig("C16", "wrong-exception:%s:relative-pulse-import-in-minimal-process:%s" % (o[0][6:], msg_class(o[1]))),
+                      {"outcome": o, "importlib.util preloaded": r["importlib_util_preloaded"]}, {"kind": "import", "text": text})
+    elif o[0] != "ok":
+        rec.violation(sig("C16", "relative-pulse-import-of-existing-module-failed-in-minimal-process:" + o[0]),
+                      {"outcome": o}, {"kind": "import", "text": text})
 
 
 def call_import(text, path):
